@@ -218,6 +218,11 @@ class Check:
             print("KNOWN-FINDING: property=%s %s" % (self.pid, what))
         rc = 0
         seen = set()
+        # a broken proof/correspondence is reported on its own only when the search found no failing input
+        if any(f for _, _, _, f in self.violations):
+            broken = [(k, w) for k, w, _, f in self.violations if not f]
+            self.violations = [(k, w, dict(r, also_broken=[w2[:400] for _, w2 in broken]) if isinstance(r, dict) else r, f)
+                               for k, w, r, f in self.violations if f]
         for key, what, replay, found in self.violations:
             if key in seen:
                 continue
